@@ -56,6 +56,15 @@ func init() {
 	Plans["C04"].Prefixes = append(Plans["C04"].Prefixes, "H_C12_spellings", "H_C06_history")
 }
 
+// heavyHarness: relative cost rank (measured); unlisted harnesses rank 0.
+var heavyHarness = map[string]int{
+	"H_C01_rhs": 1, "H_C01_chain2": 2,
+	"H_C03_escapes": 1, "H_C03_funcs": 2,
+	"H_C06_generated": 1, "H_C06_pure": 2,
+	"H_C14_extremes": 1,
+	"H_C15_strict": 1, "H_C15_unordered": 1,
+}
+
 type KnownFinding struct {
 	Property   string          `json:"property"`
 	Properties []string        `json:"properties,omitempty"`
@@ -389,6 +398,9 @@ func RunCheck(cfg *CheckConfig) *CheckOutcome {
 	if cfg.OnlyH != "" {
 		hs = strings.Split(cfg.OnlyH, ",")
 	}
+	// harnesses known to need most of the time run last, so that whatever the
+	// cheaper ones leave of their shares goes to them
+	sort.SliceStable(hs, func(i, j int) bool { return heavyHarness[hs[i]] < heavyHarness[hs[j]] })
 	if len(hs) == 0 {
 		return notClaimed("no harness for property")
 	}
